@@ -422,3 +422,14 @@ _upd('C08',
      'when one width is 1), Dadda, Karatsuba, 2^k-1 and the squarers. All modes are modelled one-to-one and compared gate for gate (uuid '
      'pinned); the search checks values and widths on the real generators, incl. generate_mul with every MulMode.',
      'Result width of Wallace is checked on the real generators, not proved (partial).')
+_upd('C08',
+     'Through the program logic of C07 (frame theorem for every mode): ALL six multiplication modes — add_mul (DEFAULT), add_mul_alter, '
+     'add_mul_dadda, both Karatsuba variants (induction over the recursion for any base multiplier meeting a spec), add_mul_pow2_m1, '
+     'add_mul_wallace (placeholder matrices as numbers, per-round conservation modulo 2^(n+m), gap logic of the final adder; every drawn '
+     'label differs from the placeholder string) — and both squarers return exactly a*b resp. x^2 for all widths, both endiannesses and '
+     'operands that are arbitrary host gates, on n+m result bits (n+m-1 when one width is 1; 2n for squares): widths proved for every mode, '
+     'incl. DEFAULT (the XAIG weighted loop outputs exactly the levels its level profile predicts; for the partial-product profile the '
+     'carries stay between 1 and the previous level\'s height) and Wallace (a non-empty column stays non-empty through the rounds and ends '
+     'in row 0, so the final adder returns at least n+m bits). All modes are modelled one-to-one and compared gate for gate (uuid pinned); '
+     'the search checks values and widths on the real generators, incl. generate_mul with every MulMode.',
+     'That the generators return at all on valid arguments (model fuel, fresh-label loop) is by correspondence; the theorems are about every run that returns.')
